@@ -98,18 +98,19 @@ ObjectClauses(dec, rgs, lfs, cobj, c, anyRejected) ==
       one(a) ==
         LET da == AttrOf(r, o, a.label) IN
           (IF a.has_val /\ a.judge
-           THEN (IF da.absent THEN {"C05.AttrValue"}
-                 ELSE (IF Len(da.vals) # Len(a.val) THEN {"C05.AttrCount"}
+           THEN (IF Len(a.val) = 0 THEN (IF da.absent \/ Len(da.vals) = 0 THEN {} ELSE {"C05.AttrCount"})
+                 ELSE IF da.absent THEN Flag("C05.AttrValue", << c.name, a.label, "absent" >>)
+                 ELSE (IF Len(da.vals) # Len(a.val) THEN Flag("C05.AttrCount", << c.name, a.label, Len(a.val), Len(da.vals) >>)
                        ELSE IF \A i \in DOMAIN a.val : ValEq(a.val[i], da.vals[i], dec, rgs, lfs, cobj) THEN {}
                             ELSE IF \E i \in DOMAIN a.val : a.val[i].k = "ref" /\ ~ValEq(a.val[i], da.vals[i], dec, rgs, lfs, cobj)
-                                 THEN {"C07.RefIsTarget"} ELSE {"C05.AttrValue"}))
+                                 THEN {"C07.RefIsTarget"} ELSE Flag("C05.AttrValue", << c.name, a.label, a.val, da >>)))
            ELSE {})
-     \cup (IF a.has_units /\ a.judge /\ da.units # a.units THEN {"C05.AttrUnits"} ELSE {})
+     \cup (IF a.has_units /\ a.judge /\ da.units # a.units THEN Flag("C05.AttrUnits", << c.name, a.label, a.units, da.units >>) ELSE {})
       extra == { i \in DOMAIN o.attrs : i <= Len(r.labels) /\ ~o.attrs[i].absent
                                         /\ r.labels[i] \notin AssignedLabels(c)
                                         /\ << r.st, r.labels[i] >> \notin AllowedAddition }
   IN UNION { one(c.attrs[i]) : i \in DOMAIN c.attrs }
-     \cup (IF extra = {} THEN {} ELSE {"C05.UnassignedAbsent"})
+     \cup (IF extra = {} THEN {} ELSE Flag("C05.UnassignedAbsent", << c.name, { r.labels[i] : i \in extra } >>))
 
 (* every decoded set of logical file k holds exactly the objects Canon puts there *)
 InventoryClauses(dec, rgs, lfs, cobj, anyRejected) ==
@@ -154,6 +155,7 @@ NofmtClauses(dec, rgs, lfs, cobj, cnf) ==
         : k \in { x \in DOMAIN rgs : x <= Len(lfs) } }
 
 (* ---------------- C03 / C08 / C11 / C13: frames and their data ----------- *)
+Abs(x) == IF x < 0 THEN 0 - x ELSE x
 RECURSIVE Prod(_)
 Prod(s) == IF s = << >> THEN 1 ELSE s[1] * Prod(Tail(s))
 
@@ -276,7 +278,9 @@ FrameClauses(dec, rgs, lfs, cobj, fe, multi) ==
              \cup (IF ~uMax /\ imax.absent THEN {"C13.IndexMax"} ELSE {})
              \cup (IF ~uSpc /\ ~spc.absent /\ n >= 2 /\ OneNum(spc).ok
                    THEN LET s == OneNum(spc).v IN
-                        (IF s # 0 /\ \A i \in 1..(n - 1) : 1000 * (s - d[i]) * (s - d[i]) < s * s THEN {} ELSE {"C13.SpacingOnlyIfUniform"})
+                        (IF \A i \in 1..(n - 1) :
+                               IF s # 0 /\ Abs(s) <= 20000 /\ Abs(d[i]) <= 20000 THEN 1000 * (s - d[i]) * (s - d[i]) < s * s ELSE d[i] = s
+                         THEN {} ELSE {"C13.SpacingOnlyIfUniform"})
                    \cup (IF (\E i \in 1..(n - 1) : d[i] <= s) /\ (\E i \in 1..(n - 1) : d[i] >= s) THEN {} ELSE {"C13.SpacingValue"})
                    ELSE {})
              \cup (IF ~uSpc /\ ~uDir /\ spc.absent /\ n >= 2
